@@ -24,8 +24,9 @@ def run(tier):
     # processes side by side with different sub-seeds in the thorough tier
     seeds = [run_.seed] if tier == "quick" else [run_.seed, run_.seed + 1000]
     # the same comparison on a build with -DNDEBUG (assertions compiled out where the tree allows it)
-    exe_nd = rt.TREE.program("ndebug", "vprim.c", name="vprim-ndebug", wrap=False, libs="-lgcrypt")
-    runs = [(exe, s) for s in seeds] + [(exe_nd, run_.seed + 7)]
+    runs = [(exe, s) for s in seeds]
+    for k, fl in enumerate(("ndebug", "os", "v2")):
+        runs.append((rt.TREE.program(fl, "vprim.c", name="vprim-" + fl, wrap=False, libs="-lgcrypt"), run_.seed + 7 + k))
     procs = [subprocess.Popen([e, "cmp", tier, str(s)], stdout=subprocess.PIPE, stderr=subprocess.PIPE,
                               text=True, env=env) for e, s in runs]
     acc = common.Acc()
@@ -74,7 +75,7 @@ def run(tier):
         "max_length_with_all_two_way_splits": L,
         "samples": [{"algorithm": "sha512", "len": 129, "cut": 128, "offset": 1},
                     {"algorithm": "pbkdf2-sha256", "pwlen": 65, "saltlen": 52, "c": 1, "dkLen": 64}],
-        "flavour": "gcc address+undefined, and a -O2 -DNDEBUG build; oracle libgcrypt in process",
+        "flavour": "gcc address+undefined, and -O2 -DNDEBUG, -Os, -O2 -march=x86-64-v2 builds; oracle libgcrypt in process",
     }
     return run_.finish(cov, assumptions=[
         "libgcrypt (with a home-made RFC 2104 HMAC and RFC 8018 PBKDF2 built on its digests, cross-checked against "
